@@ -112,6 +112,10 @@ class Evaluator:
             vals = [self.ev(v) for v in e.values]
             if all(isinstance(v, bool) for v in vals):
                 return all(vals) if isinstance(e.op, ast.And) else any(vals)
+        if isinstance(e, ast.IfExp):
+            c = self.ev(e.test)
+            if isinstance(c, bool):           # a flag of the call (`index`), decided by the scenario
+                return self.ev(e.body if c else e.orelse)
         raise NotPointwise(f"expression {ast.unparse(e)[:60]}")
 
     def combine(self, op, a, b):
